@@ -121,10 +121,12 @@ def run_shards(prop, variant, specs, tier, seed, nworkers=None, shard_timeout=90
         spec = specs[sid]
         if not (isinstance(j, dict) and "_i" in j and isinstance(spec, dict) and spec.get("_resumable")):
             return
-        resumes[sid] = resumes.get(sid, 0) + 1
-        if resumes[sid] > 40:
+        root = spec.get("_root", sid)
+        resumes[root] = resumes.get(root, 0) + 1
+        if resumes[root] > 25:
             return
         new = dict(spec)
+        new["_root"] = root
         new["_skip"] = j["_i"] + 1
         specs.append(new)
         pending.append((len(specs) - 1, new))
